@@ -2,8 +2,17 @@
 use crate::sexp::Sexp;
 
 pub fn handle(cmd: &str, args: &[Sexp]) -> Result<String, String> {
+    if let Some(r) = crate::lane_std::handle(cmd, args) {
+        return r;
+    }
     match cmd {
         "peg" => crate::lane_peg::peg(args),
-        _ => Err(format!("unknown command {cmd}")),
+        _ => match crate::lane_src::handle(cmd, args) {
+            Some(r) => r,
+            None => match crate::lane_print::handle(cmd, args) {
+                Some(r) => r,
+                None => Err(format!("unknown command {cmd}")),
+            },
+        },
     }
 }
